@@ -230,46 +230,80 @@ def check_true_color(prog, rep):
             raise AnalysisIncomplete('true_color[%s] path not found' % backend)
         f = paths[0].func()
         entry = 'true_color[%s]' % backend
-        # alpha = where(isnan(r) | r <= nodata, 0, 255)
-        found = None
-        for n in f.own_nodes():
-            if isinstance(n, ast.Call) and norm(n.func).split('.')[-1] == 'where' and len(n.args) == 3:
-                found = n
-        ok = False
-        why = 'no where(...) found'
-        if found is not None:
-            c, a, b = found.args
-            rparam = f.params[0]
-            npar = f.params[3] if len(f.params) > 3 else None
-            txt = norm(c)
-            conds = None
-            if isinstance(c, ast.Call) and norm(c.func).split('.')[-1] == 'logical_or' and len(c.args) == 2:
-                conds = c.args
-            elif isinstance(c, ast.BinOp) and isinstance(c.op, ast.BitOr):
-                conds = [c.left, c.right]
-            if conds:
-                kinds = set()
-                for cc in conds:
-                    if isinstance(cc, ast.Call) and norm(cc.func).split('.')[-1] == 'isnan' and norm(cc.args[0]) == rparam:
-                        kinds.add('nan')
-                    elif isinstance(cc, ast.Compare) and len(cc.ops) == 1:
-                        l, r = norm(cc.left), norm(cc.comparators[0])
-                        if isinstance(cc.ops[0], ast.LtE) and l == rparam and r == npar:
-                            kinds.add('le')
-                        if isinstance(cc.ops[0], ast.GtE) and r == rparam and l == npar:
-                            kinds.add('le')
-                va = _const(f, a)
-                vb = _const(f, b)
-                ok = kinds == {'nan', 'le'} and va == 0 and vb == 255
-                why = 'condition %s -> (%s, %s)' % (txt, va, vb)
-        rep.add('M5-alpha', f, entry, norm(found) if found is not None else 'alpha', 
-                found.lineno if found is not None else f.node.lineno, ok,
-                'alpha must be 0 exactly where red is NaN or <= nodata and 255 elsewhere; ' + why)
-        # channel order r,g,b,alpha -> 0,1,2,3
-        order = channel_order(prog, f)
-        rep.add('M5-channels', f, entry, 'channel order %s' % order, f.node.lineno,
-                order == [f.params[0], f.params[1], f.params[2], 'alpha'],
-                'RGBA channels must be (r, g, b, alpha) in this order')
+        # the four channels as wrapper terms (wterm.py): loops over (r, g, b), list comprehensions, append, and the
+        # two ways of building alpha (np.where, or fill + masked assignment) read the same
+        from ..wterm import WT, key as tkey, show as tshow
+        norms = [g for n_, g in m.funcs.items() if n_.startswith('_normalize_data')]
+        w = WT(prog, keep=norms)
+        ret = w.run(f)
+        rp, gp, bp = f.params[:3]
+        npar = f.params[3] if len(f.params) > 3 else None
+        chan = {}          # channel index -> list of (mask term or None, value term) in program order
+
+        def strip(t_):
+            while isinstance(t_, tuple) and t_ and (t_[0] == 'cast' or (t_[0] == 'call' and t_[1] in ('numpy.asarray', 'numpy.array', 'dask.array.asarray') and t_[2])):
+                t_ = t_[1] if t_[0] == 'cast' else t_[2][0]
+            return t_
+        if backend == 'numpy':
+            for tgt, val, guards, node in w.stores:
+                if tgt[0] == 'index' and tgt[2][0] == 'tuple' and tgt[2][1] and tgt[2][1][-1][0] == 'const':
+                    k_ = tgt[2][1][-1][1]
+                    lead = tgt[2][1][:-1]
+                    mask = None if all(x == ('slice', None, None, None) for x in lead) else (lead[0] if len(lead) == 1 else ('tuple', lead))
+                    chan.setdefault(k_, []).append((mask, val))
+        else:
+            st = strip(ret) if ret is not None else None
+            items = None
+            for t_ in ([ret] if ret is not None else []):
+                if t_[0] == 'call' and str(t_[1]).endswith('stack') and t_[2] and t_[2][0][0] == 'tuple':
+                    items = t_[2][0][1]
+                    ax = dict(t_[3]).get('axis')
+                    if ax not in (('const', -1), ('const', 2)):
+                        items = None
+            for k_, it_ in enumerate(items or []):
+                chan[k_] = [(None, it_)]
+
+        def source(val):
+            v_ = strip(val)
+            if v_[0] == 'call' and any(v_[1] == g.qualname for g in norms) and v_[2] and v_[2][0][0] == 'param':
+                return v_[2][0][1]
+            return None
+        order = [source(chan[k_][-1][1]) if k_ in chan and len(chan[k_]) == 1 else None for k_ in range(3)]
+        # alpha: 0 exactly where red is NaN or <= nodata, 255 elsewhere
+        def is_mask(t_):
+            t_ = strip(t_)
+            parts = None
+            if t_[0] == 'call' and t_[1] in ('numpy.logical_or', 'dask.array.logical_or') and len(t_[2]) == 2:
+                parts = t_[2]
+            elif t_[0] == 'bin' and t_[1] == 'BitOr':
+                parts = (t_[2], t_[3])
+            elif t_[0] == 'bool' and t_[1] == 'or' and len(t_[2]) == 2:
+                parts = t_[2]
+            if parts is None:
+                return False
+            kinds = set()
+            for p_ in parts:
+                p_ = strip(p_)
+                if p_[0] == 'call' and p_[1] in ('numpy.isnan', 'dask.array.isnan') and p_[2] == (('param', rp),):
+                    kinds.add('nan')
+                if p_[0] == 'cmp' and p_[1] == 'LtE' and p_[2] == ('param', rp) and npar and p_[3] == ('param', npar):
+                    kinds.add('le')
+            return kinds == {'nan', 'le'}
+        oka, whya = None, 'alpha channel not understood: %s' % [(tshow(a_, 40) if a_ else None, tshow(b_, 60)) for a_, b_ in chan.get(3, [])]
+        a3 = chan.get(3, [])
+        if len(a3) == 1 and a3[0][0] is None:
+            v_ = strip(a3[0][1])
+            if v_[0] == 'call' and v_[1] in ('numpy.where', 'dask.array.where') and len(v_[2]) == 3:
+                oka = is_mask(v_[2][0]) and v_[2][1] == ('const', 0) and v_[2][2] == ('const', 255)
+                whya = 'where(%s, %s, %s)' % (tshow(v_[2][0], 80), v_[2][1], v_[2][2])
+        elif len(a3) == 2 and a3[0][0] is None and a3[1][0] is not None:
+            oka = a3[0][1] == ('const', 255) and a3[1][1] == ('const', 0) and is_mask(a3[1][0])
+            whya = 'filled with %s, then %s where %s' % (a3[0][1], a3[1][1], tshow(a3[1][0], 80))
+        rep.add('M5-alpha', f, entry, 'alpha', f.node.lineno, oka,
+                'alpha must be 0 exactly where red is NaN or <= nodata and 255 elsewhere; ' + whya)
+        rep.add('M5-channels', f, entry, 'channel order %s + alpha' % order, f.node.lineno,
+                order == [rp, gp, bp] and 3 in chan and set(chan) == {0, 1, 2, 3},
+                'RGBA channels must be (r, g, b, alpha) in this order, each colour the normalised band')
     # normalisation kernel: sigmoid of the min/max-normalised value, global min/max (numpy path)
     kern = m.funcs.get('_normalize_data_cpu')
     if kern is None:
